@@ -173,6 +173,18 @@ NAMED = {
 }
 
 
+# Hand-named DAGs larger than the exhaustive bound (spines with side entries/exits, stacked diamonds, a ladder)
+NAMED_DAGS = {
+    "caterpillar": (10, ((0, 1), (1, 2), (2, 6), (7, 2), (2, 3), (3, 8), (9, 3), (3, 4), (4, 5))),
+    "double_diamond": (7, ((0, 1), (0, 2), (1, 3), (2, 3), (3, 4), (3, 5), (4, 6), (5, 6))),
+    "ladder": (6, ((0, 1), (0, 2), (1, 2), (1, 3), (2, 4), (3, 4), (3, 5), (4, 5))),
+}
+
+
+def named_dag_shapes():
+    return [(n, tuple(sorted(arcs))) for k, (n, arcs) in sorted(NAMED_DAGS.items())]
+
+
 def named_shapes():
     out = []
     for k in sorted(NAMED):
@@ -182,7 +194,7 @@ def named_shapes():
     return out
 
 
-_POOL = ["s", "a", "b", "c", "t", "d", "e", "x", "y", "z"]
+_POOL = ["s", "a", "b", "c", "t", "d", "e", "x", "y", "z", "u", "v", "w"]
 
 
 def present(shape, seed=0, idx=0):
@@ -200,7 +212,7 @@ def present(shape, seed=0, idx=0):
 
 def _POOL_DEFAULT(n):
     # seed 0: a fixed, non-topological naming (reverse alphabetical)
-    base = ["d", "c", "b", "a", "e", "f", "g", "h"]
+    base = ["d", "c", "b", "a", "e", "f", "g", "h", "i", "j", "k", "l", "m"]
     return base[:n]
 
 
